@@ -691,6 +691,15 @@ pub fn c10_pool(tier: &str) -> Vec<Term> {
     Term::replace(sms[30].clone(), vec![Repl::new(1, 2, "")]),
     Term::boxed(o("a;b")),
   ];
+  // more shapes (every 6th mapped leaf, scripted sources, named variants, deeper composites)
+  v.extend(sms.iter().step_by(6).cloned());
+  v.extend(scr.iter().step_by(9).cloned());
+  v.extend(crate::trees::named_variants());
+  v.push(crate::c09::example_combined());
+  v.push(Term::concat(vec![o("a;b\n"), Term::replace(Term::raw("xy\nz"), vec![Repl::new(1, 3, "Q")]), o("a")]));
+  v.push(Term::replace(Term::concat(vec![o("a\nb"), o("a;b")]), vec![Repl::new(2, 4, "\n"), Repl::new(0, 0, "//")]));
+  v.push(Term::concat(vec![Term::cached(Term::concat(vec![o("a"), Term::raw("b"), Term::raw("")])), o("a\nb")]));
+  v.push(Term::boxed(Term::replace(o("a; {b}\n c"), vec![Repl::new(3, 5, ""), Repl::new(3, 4, "W").named("w")])));
   if tier == "thorough" {
     v.extend(sms.iter().step_by(7).cloned());
     v.extend(scr.iter().step_by(5).cloned());
